@@ -5,7 +5,10 @@ PROPERTY = "C09"
 DRIVER = "TraitsVerif/Driver/Obs.lean"
 PROPS_MODULES = ["TraitsVerif.Props.C09"]
 TRANSLATORS = []
-RULE = ("histories over the C08 pool interleaving observe / observe(remove=True) of 2 bound-method handlers x 1-3 "
+RULE = ("histories over the C08 pool interleaving observe / observe(remove=True) of 2 bound-method handlers (each "
+        "also through traits.observation.api.observe with a custom dispatcher that is a fresh, equal bound method at "
+        "every call = handler keys 10, 11; failing removals of expression lists whose later part was never "
+        "registered, on `*` / `+tag` nodes) x 1-3 "
         "random expressions x several roots (n-fold registration, removal in any order, one removal too many, "
         "never-registered removal) with graph mutations, failing registrations/removals (missing trait, "
         "non-container where a container is required, trait of a non-HasTraits value, injected at every position "
@@ -42,6 +45,14 @@ def corpus():
         F4_WITNESS,
         F4B_WITNESS,
         F4C_WITNESS,
+        # handler key 10 + h: handler h through traits.observation.api.observe(dispatcher=queue.dispatch),
+        # a new bound method at every call: register twice, unregister twice, once too many
+        "obs|3|N,N,N|set 0 child 1;obs 10 0 t.child.1.0 t.value.1.0 then;obs 10 0 t.child.1.0 t.value.1.0 then;"
+        "obs 0 0 t.child.1.0 t.value.1.0 then;unobs 10 0 t.child.1.0 t.value.1.0 then;"
+        "unobs 10 0 t.child.1.0 t.value.1.0 then;unobs 10 0 t.child.1.0 t.value.1.0 then;unobs 0 0 t.child.1.0 t.value.1.0 then",
+        # a failing removal on a node with several observables: `[*, value]` with only `*` registered
+        "obs|3|N,N,N|addt 0 extra 1;obs 0 0 any.1;unobs 0 0 any.1 t.value.1.0 or;addt 0 xchild 1;unobs 0 0 any.1;unobs 0 0 any.1",
+        "obs|3|N,N,N|addt 0 extra 1;obs 1 0 meta.1;unobs 1 0 meta.1 t.mate.1.0 or;unobs 1 0 meta.1",
         # two distinct owners that compare == share a child and register the same handler: one
         # notifier per owner (targets are compared with `is`), one call per registration
         "obs|3|N~0,N~2,N~2|set 2 child 0;set 1 child 0;obs 0 2 t.child.1.0 t.value.1.0 then;"
@@ -66,6 +77,10 @@ def generate(rng, tier):
         yield O.history_eq(rng, c09=True)
     for _ in range(nh // 8):
         yield O.history_mult(rng, c09=True)
+    for _ in range(nh // 6):
+        yield O.history_failrm(rng)
+    for _ in range(nh // 12):
+        yield O.history_filt(rng)
     for _ in range(ngc):
         yield "#gc" + O.history_c09(rng, maxops=8, gc_case=True)
 
